@@ -37,11 +37,11 @@ def render_pat(p):
   lit = ''.join(ALPHA[c - 1] for c in p['lit']).replace('.', '\\.')
   # 'any*' kinds match every name with an EMPTY match (zero width): '^', an optional prefix, a starred letter
   return dict(sub=lit, prefix='^' + lit, suffix=lit + '$', exact='^' + lit + '$', anystart='^', anyopt='^(' + lit + ')?',
-              anystar='x*', anylook='^(?!zz' + lit + ')')[p['k']]
+              anystar='x*', anylook='^(?!zz' + lit + ')', prefixopt='^' + lit + '?', prefixstar='^' + lit + '*')[p['k']]
 
 
 def gen_pat(rng):
-  return dict(k=rng.choice(['sub', 'sub', 'prefix', 'suffix', 'exact', 'sub', 'prefix', 'suffix', 'exact', 'anystart', 'anyopt', 'anystar', 'anylook']),
+  return dict(k=rng.choice(['sub', 'sub', 'prefix', 'suffix', 'exact', 'sub', 'prefix', 'suffix', 'exact', 'anystart', 'anyopt', 'anystar', 'anylook', 'prefixopt', 'prefixstar']),
               lit=enc(''.join(rng.choice('abcd.') for _ in range(rng.randint(1, 3)))))
 
 
